@@ -6,15 +6,19 @@ package main
 //
 //	kind=line  id=0|1 ns=<unixnano> tag=<hex> sid=<uint64> f=<10 ints, documented column order> via=api|raw
 //	kind=str   ns=… tag=… sid=… f=… via=…                (*Sample).String()
-//	kind=queue agg=phout|jsonlines g=<G> k=<K> q=<Q> flush=<ms> buf=<bytes> wrap=0|1 jit=<seed>
+//	kind=seq   id=0|1 q=<Q> via=api|raw s=<ns>:<taghex>:<sid>:<f,…>;…   several samples through ONE phout aggregator
+//	kind=queue agg=phout|jsonlines g=<G> k=<K> q=<Q> flush=<ms> buf=<bytes> wrap=0|1 jit=<seed> [late=1] [sink=file] [fail=<bytes>]
+//	kind=engine agg=… pools=<P> inst=<I> ammo=<N> per=<R> q=<Q> slow=<µs> cancel=<-1|shot> seed=<S>   the real engine.Engine
 //	kind=json  n=<N> q=<Q> seed=<S>
-//	kind=proc  sig=INT|TERM at=<ms> rps=<R> procs=<GOMAXPROCS of the subprocess, 0 = default>
+//	kind=proc  sig=INT|TERM at=<ms> rps=<R> procs=<GOMAXPROCS of the subprocess, 0 = default> [res=phout|json]
 
 import (
 	"fmt"
 	"math"
 	"math/rand"
+	"os"
 	"strings"
+	"sync"
 	"time"
 
 	"verifharness/drv"
@@ -99,6 +103,26 @@ func genNs(r *rand.Rand) int64 {
 	}
 }
 
+func seqInput(r *rand.Rand, n int) string {
+	var parts []string
+	for i := 0; i < n; i++ {
+		var f []string
+		for j := 0; j < 10; j++ {
+			f = append(f, fmt.Sprint(genField(r)))
+		}
+		tag := genTag(r)
+		if r.Intn(4) == 0 {
+			tag = "" // the empty tag is a valid, common input (ammo without a tag)
+		}
+		parts = append(parts, seqToken(genNs(r), tag, genSid(r), f))
+	}
+	via := "api"
+	if r.Intn(3) == 0 {
+		via = "raw"
+	}
+	return fmt.Sprintf("kind=seq id=%d q=%d via=%s s=%s", r.Intn(2), []int{1, 2, 64}[r.Intn(3)], via, strings.Join(parts, ";"))
+}
+
 func sampleInput(r *rand.Rand, ns int64) string {
 	var f []string
 	for i := 0; i < 10; i++ {
@@ -113,8 +137,10 @@ func sampleInput(r *rand.Rand, ns int64) string {
 
 func c06Gen(r *rand.Rand, tier string) []string {
 	nLine, nStr, nQueue, nJSON, nProc := 500, 120, 60, 40, 2
+	nSeq, nLate, nFile, nFail, nEngine := 60, 40, 6, 16, 24
 	if tier == "thorough" {
-		nLine, nStr, nQueue, nJSON, nProc = 12000, 2500, 700, 500, 10
+		nLine, nStr, nQueue, nJSON, nProc = 40000, 8000, 4000, 3000, 36
+		nSeq, nLate, nFile, nFail, nEngine = 3000, 3000, 150, 600, 700
 	}
 	var out []string
 	// fixed: one column-identifying sample (all ten values distinct) through every setter, ids on and off
@@ -158,6 +184,50 @@ func c06Gen(r *rand.Rand, tier string) []string {
 		buf := []int{0, 4096, 65536}[r.Intn(3)]
 		out = append(out, fmt.Sprintf("kind=queue agg=%s g=%d k=%d q=%d flush=%d buf=%d wrap=%d jit=%d", agg, g, k, q, flush, buf, r.Intn(2), r.Intn(1000)))
 	}
+	for i := 0; i < nSeq; i++ {
+		out = append(out, seqInput(r, 2+r.Intn(7)))
+	}
+	qline := func(agg string, g, k, q int) string {
+		return fmt.Sprintf("kind=queue agg=%s g=%d k=%d q=%d flush=%d buf=%d wrap=%d jit=%d", agg, g, k, q,
+			[]int{0, 1, 50, 1000}[r.Intn(4)], []int{0, 4096, 65536}[r.Intn(3)], r.Intn(2), r.Intn(1000))
+	}
+	for i := 0; i < nLate; i++ {
+		g := []int{1, 2, 4, 16}[r.Intn(4)]
+		k := []int{5, 40, 200}[r.Intn(3)]
+		if r.Intn(2) == 0 {
+			// phout Report blocks on a full queue: after Run has returned nobody empties it, so the queue must hold
+			// everything that may still come
+			out = append(out, qline("phout", g, k, g*k)+" late=1")
+		} else {
+			out = append(out, qline("jsonlines", g, k, []int{1, 2, 64, 4096}[r.Intn(4)])+" late=1")
+		}
+	}
+	for i := 0; i < nFile; i++ {
+		agg := []string{"phout", "jsonlines"}[i%2]
+		out = append(out, qline(agg, []int{1, 4}[r.Intn(2)], []int{1, 30, 200}[r.Intn(3)], 64)+" sink=file")
+	}
+	for i := 0; i < nFail; i++ {
+		agg := []string{"phout", "jsonlines"}[r.Intn(2)]
+		out = append(out, qline(agg, []int{1, 4}[r.Intn(2)], []int{3, 60, 400}[r.Intn(3)], []int{2, 64, 4096}[r.Intn(3)])+
+			fmt.Sprintf(" fail=%d", []int{1, 50, 700, 5000, 70000}[r.Intn(5)]))
+	}
+	for i := 0; i < nEngine; i++ {
+		agg := []string{"phout", "jsonlines"}[r.Intn(2)]
+		pools := 1 + r.Intn(2)
+		inst := []int{1, 2, 4, 8}[r.Intn(4)]
+		ammo := []int{1, 5, 30, 120}[r.Intn(4)]
+		per := 1 + r.Intn(3)
+		cancel := -1
+		if r.Intn(3) == 0 {
+			cancel = 1 + r.Intn(ammo)
+		}
+		q := []int{1, 4, 64, 4096}[r.Intn(4)]
+		if agg == "phout" && cancel >= 0 && q < ammo*per {
+			q = ammo * per // see above: nobody empties phout's queue after Run returned
+		}
+		out = append(out, fmt.Sprintf("kind=engine agg=%s pools=%d inst=%d ammo=%d per=%d q=%d slow=%d cancel=%d seed=%d",
+			agg, pools, inst, ammo, per, q, []int{0, 200, 1500}[r.Intn(3)], cancel, r.Intn(1<<20)))
+	}
 	for i := 0; i < nJSON; i++ {
 		n := 1 + r.Intn(6)
 		q := n + r.Intn(4)
@@ -176,15 +246,37 @@ func c06Gen(r *rand.Rand, tier string) []string {
 			if i%4 == 3 {
 				procs = 0 // default GOMAXPROCS
 			}
-			out = append(out, fmt.Sprintf("kind=proc sig=%s at=%d rps=%d procs=%d", sig, 300+r.Intn(1500), []int{100, 200, 400}[r.Intn(3)], procs))
+			res := ""
+			if i%3 == 2 {
+				res = " res=json" // jsonlines aggregator over the real file sink
+			}
+			at := 300 + r.Intn(1500)
+			if i%5 == 4 {
+				at = r.Intn(60) // right after the first request
+			}
+			out = append(out, fmt.Sprintf("kind=proc sig=%s at=%d rps=%d procs=%d%s", sig, at, []int{100, 200, 400}[r.Intn(3)], procs, res))
 		}
 	}
 	return out
 }
 
+// kind=proc measures a real process against wall-clock margins: it runs alone; all other kinds run in parallel
+var procExcl sync.RWMutex
+
 func c06Run(input string) string {
 	kv := drv.KV(input)
+	if kv["kind"] == "proc" {
+		procExcl.Lock()
+		defer procExcl.Unlock()
+	} else {
+		procExcl.RLock()
+		defer procExcl.RUnlock()
+	}
 	switch kv["kind"] {
+	case "seq":
+		return runSeq(kv)
+	case "engine":
+		return runEngine(kv)
 	case "line":
 		return runLine(kv, false)
 	case "str":
@@ -211,8 +303,28 @@ func c06Class(input, obs string) string {
 			c += ":panic"
 		}
 		return c
+	case "seq":
+		return "seq"
 	case "queue":
 		c := "queue:" + kv["agg"]
+		if kv["late"] == "1" {
+			c += ":late"
+		}
+		if kv["sink"] == "file" {
+			c += ":file"
+		}
+		if kv["fail"] != "" {
+			c += ":fail"
+		}
+		if !strings.Contains(obs, "dropped=0 ") {
+			c += ":drops"
+		}
+		return c
+	case "engine":
+		c := "engine:" + kv["agg"]
+		if kv["cancel"] != "-1" {
+			c += ":cancel"
+		}
 		if !strings.Contains(obs, "dropped=0 ") {
 			c += ":drops"
 		}
@@ -223,14 +335,21 @@ func c06Class(input, obs string) string {
 		if strings.HasPrefix(obs, "inconclusive") {
 			return "proc:inconclusive"
 		}
-		return "proc:" + kv["sig"]
+		return "proc:" + kv["sig"] + kv["res"]
 	}
 	return ""
 }
 
 func main() {
+	// everything except kind=proc (which takes the exclusive lock) is independent of timing: run in parallel
+	workers := 6
+	for i, a := range os.Args {
+		if (a == "-tier" || a == "--tier") && i+1 < len(os.Args) && os.Args[i+1] == "thorough" {
+			workers = 12
+		}
+	}
 	drv.Main(&drv.Prop{
-		ID: "C06", Gen: c06Gen, Run: c06Run, Class: c06Class, Workers: 1, Timeout: 150 * time.Second,
-		Rule: "samples with boundary/random int64 fields, unicode/odd tags, ids on/off and boundary timestamps through the real phout aggregator (public setters or raw array) compared byte-exactly with the model; G∈{1,4,32,…} reporter goroutines × queue sizes {1,2,64,…} × flush intervals through the real phout and jsonlines aggregators with the cancel right after the last Report; random JSON values through jsonlines; the pandora binary built from main.go stopped by SIGINT/SIGTERM at a PRNG-chosen instant; a case is non-trivial when it produced at least one line or a panic",
+		ID: "C06", Gen: c06Gen, Run: c06Run, Class: c06Class, Workers: workers, Timeout: 150 * time.Second,
+		Rule: "samples with boundary/random int64 fields, unicode/odd tags, ids on/off and boundary timestamps through the real phout aggregator (public setters or raw array) compared byte-exactly with the model; G∈{1,4,32,…} reporter goroutines × queue sizes {1,2,64,…} × flush intervals through the real phout and jsonlines aggregators with the cancel right after the last Report; random JSON values through jsonlines; sequences of different samples through one phout aggregator (whole file byte-exact); the same with the cancel in the middle of the reporting (reports completed before the cancel must be there), with the real file sink over stale content, with a sink that fails after N bytes (must still be closed); the real engine.Engine with 1-2 pools × instances × ammo over the real aggregators, judged the moment Engine.Run returns nil or, cancelled mid-run, after Engine.Wait; the pandora binary built from main.go (phout, or jsonlines over the file sink) stopped by SIGINT/SIGTERM at a PRNG-chosen instant; a case is non-trivial when it produced at least one line or a panic",
 	})
 }
